@@ -296,6 +296,11 @@ func (r *rw) stmt(s ast.Stmt) ast.Stmt {
 		}
 		r.exprs(x.Cond)
 		r.block(x.Body)
+		if e, isIf := x.Else.(*ast.IfStmt); isIf && r.maps && len(r.mapReads(e)) > 0 {
+			// `else if c` with tracked map reads in c: `else { if c ... }`, so that the block pass puts the hooks
+			// immediately before the nested if (same scoping, same evaluation order)
+			x.Else = &ast.BlockStmt{List: []ast.Stmt{e}}
+		}
 		if x.Else != nil {
 			x.Else = r.stmt(x.Else)
 		}
